@@ -6,6 +6,7 @@ import (
 	"os"
 	"runtime"
 	"sort"
+	"strconv"
 	"strings"
 	"sync"
 	"testing"
@@ -46,12 +47,12 @@ func (c *seqCase) opsKey() string {
 // tally collects observations of one worker and is merged into the run at the end of a batch.
 type tally struct {
 	c      map[string]int
-	states map[string]struct{}
+	states map[uint64]struct{}
 	nontr  []string
 	evals  int
 }
 
-func newTally() *tally { return &tally{c: map[string]int{}, states: map[string]struct{}{}} }
+func newTally() *tally { return &tally{c: map[string]int{}, states: map[uint64]struct{}{}} }
 func (t *tally) add(k string, n int) {
 	t.c[k] += n
 }
@@ -60,7 +61,7 @@ func (t *tally) merge() {
 		run.Count(k, n)
 	}
 	for s := range t.states {
-		run.Distinct("abstract_states", s)
+		run.Distinct("abstract_states", strconv.FormatUint(s, 16))
 	}
 	for _, k := range t.nontr {
 		run.Nontrivial(k)
@@ -69,20 +70,15 @@ func (t *tally) merge() {
 	*t = *newTally()
 }
 
-func stateKey(g geom, nPub int, held map[string]blk) string {
-	ks := make([]string, 0, len(held))
-	for s, b := range held {
-		ks = append(ks, s+"="+b.String())
-	}
-	sort.Strings(ks)
-	return fmt.Sprintf("%s|%d|%s", g.Name, nPub, strings.Join(ks, ","))
-}
-
+// snap is the instant of one op and what it changed in the model (only the op's own subscriber can change).
 type snap struct {
-	T     time.Time
-	Held  map[string]blk
-	Focus []blk
-	Op    int
+	T       time.Time
+	Sub     string
+	Changed bool
+	Set     bool
+	B       blk
+	Focus   []blk
+	Op      int
 }
 
 var seenTriples sync.Map
@@ -127,7 +123,7 @@ func runSeq(c *seqCase, tl *tally) bool {
 		pubs[pubIP(i).String()] = true
 	}
 
-	held := map[string]blk{}     // the model: subscriber -> block it was told
+	held := map[string]blk{}      // the model: subscriber -> block it was told
 	subIDs := map[uint32]string{} // SubscriberID -> subscriber
 	var hist []string
 	sk := &sink{g: g, nPub: c.NPub, mode: c.Mode.String(), family: c.Family, hist: func() []string { return append([]string(nil), hist...) }}
@@ -135,6 +131,8 @@ func runSeq(c *seqCase, tl *tally) bool {
 	var recsAll []logRec
 	var fileOff int64
 	var snaps []snap
+	var heldList []lmEntry
+	stateHash := entryHash(g.Name, blk{S: c.NPub})
 	seen := map[int]bool{}
 	var seenList []int
 	holes := map[string]bool{}
@@ -169,6 +167,7 @@ func runSeq(c *seqCase, tl *tally) bool {
 		ip := privIP(op.Sub)
 		name := ip.String()
 		var focus []blk
+		ob, wasHeld := held[name]
 		if !seen[op.Sub] {
 			seen[op.Sub] = true
 			seenList = append(seenList, op.Sub)
@@ -304,6 +303,22 @@ func runSeq(c *seqCase, tl *tally) bool {
 			}
 		}
 
+		// what this op changed in the model
+		sn := snap{T: now, Sub: name, Focus: focus, Op: k + 1}
+		if nb, isHeld := held[name]; isHeld != wasHeld || nb != ob {
+			sn.Changed, sn.Set, sn.B = true, isHeld, nb
+			if wasHeld {
+				stateHash ^= entryHash(name, ob)
+				heldList = listDel(heldList, name)
+			}
+			if isHeld {
+				stateHash ^= entryHash(name, nb)
+				heldList = listSet(heldList, name, nb)
+			}
+		}
+		snaps = append(snaps, sn)
+		tl.states[stateHash] = struct{}{}
+
 		// the log, read in order
 		if c.Mode.Flush == "explicit" {
 			lg.Flush()
@@ -314,18 +329,12 @@ func runSeq(c *seqCase, tl *tally) bool {
 		synctest.Wait()
 		pull()
 		if c.Mode.Flush == "explicit" {
-			n, cls, desc := compareAttribution(g, c.NPub, held, lm, focus, rnd)
+			n, cls, desc := compareAttribution(g, c.NPub, heldList, lm, focus, rnd)
 			tl.add("attribution_probes_in_order", n)
 			if cls != "" {
 				sk.report(compLog, "attribution-in-order", cls, fmt.Sprintf("after op %d: %s", k+1, desc))
 			}
 		}
-		cp := make(map[string]blk, len(held))
-		for s, b := range held {
-			cp[s] = b
-		}
-		snaps = append(snaps, snap{T: now, Held: cp, Focus: focus, Op: k + 1})
-		tl.states[stateKey(g, c.NPub, held)] = struct{}{}
 	}
 
 	// shutdown flushes whatever is buffered
@@ -333,7 +342,7 @@ func runSeq(c *seqCase, tl *tally) bool {
 	mgr.Stop()
 	synctest.Wait()
 	pull()
-	n, cls, desc := compareAttribution(g, c.NPub, held, lm, nil, rnd)
+	n, cls, desc := compareAttribution(g, c.NPub, heldList, lm, nil, rnd)
 	tl.add("attribution_probes_in_order", n)
 	if cls != "" {
 		sk.report(compLog, "attribution-in-order", cls, "after shutdown (everything flushed): "+desc)
@@ -347,13 +356,21 @@ func runSeq(c *seqCase, tl *tally) bool {
 	sorted := append([]logRec(nil), recsAll...)
 	sort.SliceStable(sorted, func(i, j int) bool { return sorted[i].TS.Before(sorted[j].TS) })
 	lmT := &logModel{}
+	var heldT []lmEntry
 	p := 0
 	for _, sn := range snaps {
+		if sn.Changed {
+			if sn.Set {
+				heldT = listSet(heldT, sn.Sub, sn.B)
+			} else {
+				heldT = listDel(heldT, sn.Sub)
+			}
+		}
 		for p < len(sorted) && !sorted[p].TS.After(sn.T) {
 			lmT.apply(sorted[p])
 			p++
 		}
-		n, cls, desc := compareAttribution(g, c.NPub, sn.Held, lmT, sn.Focus, rnd)
+		n, cls, desc := compareAttribution(g, c.NPub, heldT, lmT, sn.Focus, rnd)
 		tl.add("attribution_probes_by_time", n)
 		tl.add("instants_judged_by_time", 1)
 		if cls != "" {
@@ -374,6 +391,7 @@ func runSeq(c *seqCase, tl *tally) bool {
 }
 
 var deltas = []time.Duration{1, time.Millisecond, time.Second, 5 * time.Second, 5*time.Second + 1, 11 * time.Second, 999 * time.Millisecond, 1, time.Microsecond}
+
 // BufferSize 0 means the logger's default of 1000 entries: it re-allocates a ~200 KB buffer on every flush,
 // which is very slow under the race detector, so the default is exercised only by every 40th history.
 var bufSizes = []int{1, 2, 3, 5, 10}
@@ -457,7 +475,8 @@ func TestA_Scenarios(t *testing.T) {
 // TestExhaustive enumerates every alloc/dealloc sequence of the given depth over <= 6 subscribers
 // (up to renaming of subscribers: a new subscriber is always the next unused index).
 func TestExhaustive(t *testing.T) {
-	depth := run.Pick(5, 8)
+	depthAll := run.Pick(5, 7) // every sequence
+	depthEff := run.Pick(7, 8) // every sequence without a release that can only be a no-op
 	type combo struct {
 		g    geom
 		nPub int
@@ -513,7 +532,6 @@ func TestExhaustive(t *testing.T) {
 	run.Extra("exhaustive_depth_all_sequences", depthAll)
 	run.Extra("exhaustive_depth_sequences_without_noop_release", depthEff)
 	run.Extra("exhaustive_configurations", len(combos))
-	run.Extra("exhaustive", true)
 }
 
 // enumerate calls fn for every alloc/dealloc sequence of exactly the given depth in which a new subscriber is
